@@ -82,7 +82,9 @@ fn check_part(ctx: &mut Context, query: &str, what: &str, p: &NumberParts, q: &N
                 let (x, y) = (f(&v.value), f(&q.value));
                 let tol = 10f64.powi(1 - sig) * 1.0000001;
                 let same = v.unit == q.unit && (x == y || ((x - y) / y).abs() <= tol);
-                if !same {
+                if !same && v.unit != q.unit {
+                    fails.push(format!("FAIL {} :: {} shows `{}` which reads back with another dimension, as {:?}; the quantity is {:?}", query, what, p.format("a u"), v, q));
+                } else if !same {
                     fails.push(format!("FAIL {} :: {} shows `{}` ({} significant digits) which reads back as {:?}, the quantity is {:?}", query, what, p.format("a u"), sig, v, q));
                 }
             }
@@ -199,7 +201,29 @@ fn check_query(ctx: &mut Context, line: &str, fails: &mut Vec<String>) -> usize 
                 check_part(ctx, line, &format!("the list entry for `{}`", name), &p2, &q, fails);
                 n += 1;
             }
-            let _ = lhs;
+            // the entries, taken exactly (their raw counts, each under the name it is shown with), add up to the quantity
+            if let Some(q) = lhs {
+                let mut text = String::new();
+                let mut all = true;
+                for p in &l.list {
+                    match p.raw_value.as_ref().and_then(|r| r.unit.as_single().map(|(u, pw)| (r.value.to_rational(), u.to_string(), pw))) {
+                        Some(((num, den), name, 1)) if matches!(p.raw_value.as_ref().unwrap().value, Numeric::Rational(_)) => {
+                            if !text.is_empty() {
+                                text.push_str(" + ");
+                            }
+                            text.push_str(&format!("(({} / {}) {})", num, den, name));
+                        }
+                        _ => all = false,
+                    }
+                }
+                if all && !text.is_empty() && matches!(q.value, Numeric::Rational(_)) {
+                    match eval_number(ctx, &text) {
+                        Ok(v) if v.unit == q.unit && v.value == q.value => {}
+                        Ok(v) => fails.push(format!("FAIL {} :: the list entries `{}` add up to {:?}, the quantity is {:?}", line, text, v, q)),
+                        Err(e) => fails.push(format!("FAIL {} :: the list entries `{}` do not evaluate ({})", line, text, e)),
+                    }
+                }
+            }
             n
         }
         _ => 0,
@@ -280,6 +304,17 @@ fn main() {
             ("2.5 kWh", vec!["J", "MJ", "3 BTU", "calorie", "eV", "1/7 W hour"]),
             ("1 tesla", vec!["gauss", "kg / A s^2", "3 gauss", "Wb / m^2"]),
             ("1e-9 F", vec!["pF", "3 pF", "A^2 s^4 / kg m^2", "C / V"]),
+            // constants combined by an operator, bare constants, small entries of a list
+            ("10 foot", vec!["3 foot + 2 foot", "3 foot - 1 foot", "7 foot mod 2 foot", "(2 foot)^1", "foot + foot"]),
+            ("12", vec!["3", "1|7", "6 and 3", "6 or 3", "6 xor 3", "3 + 1", "2^2", "1"]),
+            ("8 m^2", vec!["(2 m)^2", "(4 m^4)^0.5", "2 m * 3 m", "m^2 / 3"]),
+            ("0.5 ms", vec!["s;ms", "ms;us", "s"]),
+            ("4 bit", vec!["byte;bit", "byte"]),
+            ("5000 kg", vec!["kg;g", "tonne;kg"]),
+            // long constants, lists that are not in descending order
+            ("1 TiB", vec!["4294967296 byte", "123456789012 bit", "1234567891|1000 byte", "byte;kB;MB", "bit;byte"]),
+            ("5.5 foot", vec!["inch;ft", "inch;yard;ft", "98765432101 nm", "1|98765432101 km", "12345678.9 um"]),
+            ("1 year", vec!["s;hour;day", "31556925974|1000 s", "minute;week"]),
         ] {
             for r in rs {
                 lines.push(format!("{} -> {}", l, r));
